@@ -326,6 +326,12 @@ func cliArgs(e string) []string {
 		return []string{"-add-bond", f[1] + "," + f[2]}
 	case "delbonds":
 		return []string{"-del-bonds", f[1]}
+	case "addproc": // addproc <domain> <n> <m> (n, m: the domain's shape, for the model)
+		return []string{"-add-processor", f[1]}
+	case "attach":
+		return []string{"-attach-benchmark-core", f[1] + "," + f[2]}
+	case "attach2":
+		return []string{"-attach-benchmark-core-v2", f[1] + "," + f[2]}
 	}
 	return nil
 }
@@ -365,7 +371,26 @@ func runCliHistory(id int, cli string, dir string, setup []string, cedits []stri
 		return
 	}
 	os.WriteFile(file, b, 0644)
+	exists := func(name string) bool {
+		raw, _ := os.ReadFile(file)
+		var bj bondmachine.Bondmachine_json
+		if json.Unmarshal(raw, &bj) != nil {
+			return false
+		}
+		for _, n := range (&bj).Dejsoner().List_internal_outputs() {
+			if n == name {
+				return true
+			}
+		}
+		return false
+	}
 	for _, e := range cedits {
+		if f := strings.Fields(e); f[0] == "attach" || f[0] == "attach2" {
+			// the tool refuses the option (and exits) when a name does not exist: only valid ones are tried
+			if !exists(f[1]) || !exists(f[2]) {
+				continue
+			}
+		}
 		out.Line("C %s", e)
 		args := append([]string{"-bondmachine-file", file}, cliArgs(e)...)
 		cmd := exec.Command(cli, args...)
@@ -421,8 +446,26 @@ func genCliHistory(r *common.Rng, maxlen int) ([]string, []string) {
 		setup = append(setup, "ab "+s.inName(r)+" "+s.outName(r))
 	}
 	var c []string
+	ndom := len(s.procs) // the setup made one domain per processor
 	for i, n := 0, 1+r.Intn(maxlen); i < n; i++ {
-		switch r.Intn(8) {
+		switch r.Intn(11) {
+		case 8: // a further processor of an existing domain
+			d := r.Intn(ndom)
+			c = append(c, fmt.Sprintf("addproc %d %d %d", d, s.procs[d][0], s.procs[d][1]))
+			s.procs = append(s.procs, s.procs[d])
+			s.slots += s.procs[d][0]
+		case 9, 10:
+			op := "attach"
+			if r.Bool() {
+				op = "attach2"
+			}
+			// (the benchmark core brings its own domain, a processor and an output; both names must
+			// exist for the tool to accept the option: the shadow only offers names that do)
+			a, b := s.outName(r), s.outName(r)
+			c = append(c, op+" "+a+" "+b)
+			s.procs = append(s.procs, [2]int{2, 1})
+			s.slots += 3
+			s.outputs++
 		case 0:
 			k := 1 + r.Intn(2)
 			c = append(c, "addin "+strconv.Itoa(k))
